@@ -2,6 +2,7 @@
 //! supplied by /verif/check and prints canonical results, one JSON value per line.
 use std::io::{BufRead, Write};
 
+mod query;
 mod compile;
 mod lexparse;
 mod names;
@@ -41,6 +42,14 @@ fn main() {
                 let line = line.unwrap();
                 let v: serde_json::Value = serde_json::from_str(&line).unwrap();
                 writeln!(out, "{}", lexparse::lexparse_case(&v)).unwrap();
+            }
+        }
+        "query" => {
+            for line in stdin.lock().lines() {
+                let line = line.unwrap();
+                let v: serde_json::Value = serde_json::from_str(&line).unwrap();
+                writeln!(out, "{}", query::query_case(&v)).unwrap();
+                out.flush().unwrap();
             }
         }
         "parse-ast" => {
